@@ -22,6 +22,7 @@ import (
 	"strconv"
 	"strings"
 	"sync"
+	"syscall"
 	"time"
 
 	"github.com/thought-machine/please/src/core"
@@ -320,6 +321,13 @@ func scratch() string {
 	if st, err := os.Stat("/dev/shm"); err == nil && st.IsDir() {
 		base = "/dev/shm"
 	}
+	if stale, _ := filepath.Glob(filepath.Join(base, "verif-c22-*")); len(stale) > 0 {
+		for _, p := range stale { // left behind by a killed run
+			if st, err := os.Stat(p); err == nil && time.Since(st.ModTime()) > 2*time.Hour {
+				os.RemoveAll(p)
+			}
+		}
+	}
 	d, err := os.MkdirTemp(base, "verif-c22-")
 	if err != nil {
 		lib.Fatal("scratch: %v", err)
@@ -396,8 +404,10 @@ func worker(idx, n int, quick bool, deadline time.Time) {
 			}
 			files := []string{""}
 			for _, h := range holders {
-				if quick && mask != 1<<len(holders)-1 {
-					break // quick tier: the plain-file dimension is combined with "every directory has a BUILD file" only
+				if (quick || len(dirs) > 3) && mask != 1<<len(holders)-1 {
+					// quick tier, and 4-directory trees of the thorough tier: the plain-file dimension is combined with
+					// "every directory has a BUILD file" only
+					break
 				}
 				for _, fn := range fileNames {
 					f := filepath.Join(h, fn)
@@ -502,6 +512,7 @@ func main() {
 			defer wg.Done()
 			cmd := exec.Command(os.Args[0])
 			cmd.Env = append(os.Environ(), fmt.Sprintf("VERIF_C22_WORKER=%d/%d/%s/%d", i, n, r.Tier, budget))
+			cmd.SysProcAttr = &syscall.SysProcAttr{Pdeathsig: syscall.SIGKILL} // workers die with the driver
 			cmd.Stderr = os.Stderr
 			out, err := cmd.Output()
 			if err != nil {
@@ -562,7 +573,7 @@ func main() {
 	r.Finish(lib.Coverage{
 		Evaluations:        int(total.Evals),
 		DistinctNontrivial: int(total.Nontrivial),
-		Rule:               fmt.Sprintf("every parent-closed tree of <=%d directories, depth <=%d, over names %v; x every subset of {root}+dirs holding a BUILD file; x no plain file or one plain file named %v in any directory (quick tier: the plain file only together with the all-BUILD subset); x blacklist in %v; x experimental in %v; x every eligible expansion root (repo root or any directory of the tree); one evaluation = one real walk compared with the reference; non-trivial = at least one BUILD file and a non-empty tree or configuration", maxDirs, depth, dirNames, fileNames, blacklists, experimentals),
+		Rule:               fmt.Sprintf("every parent-closed tree of <=%d directories, depth <=%d, over names %v; x every subset of {root}+dirs holding a BUILD file; x no plain file or one plain file named %v in any directory (quick tier and the 4-directory trees of the thorough tier: the plain file only together with the all-BUILD subset); x blacklist in %v; x experimental in %v; x every eligible expansion root (repo root or any directory of the tree); one evaluation = one real walk compared with the reference; non-trivial = at least one BUILD file and a non-empty tree or configuration", maxDirs, depth, dirNames, fileNames, blacklists, experimentals),
 		Samples:            samples,
 		Exhaustive:         !total.Capped,
 		Extra:              map[string]any{"trees": total.Trees, "file_system_variants": total.FSVariants, "worker_processes": n},
